@@ -3,11 +3,31 @@ CORE = ["Core/TopologyKernel.cc", "Core/ResourceManager.cc", "Core/Iterators.cc"
         "Core/Properties/PropertyStorageBase.cc", "Core/detail/internal_type_name.cc"]
 
 PROPS = {}
-PROPS["C08"] = dict(
-  jobs=[
-    dict(name="handles", harness="C08_handles.cpp", entries=["harness_handles"], units=["Core/Handles.cc"],
-         unwind=4, solvers=["minisat"], timeout=300, mem_gb=2,
-         bounds="every edge/face index in [0,2^30), every non-negative half-entity index (full int range)"),
-  ],
-  assumptions=[],
-)
+# entity counts of the base family (harness/mesh_common.h): base id -> (nV, nE, nF, nC)
+B_EMPTY, B_LOWDIM, B_TET, B_TET2_FACE, B_TET2_EDGE, B_TET2_VERTEX, B_TET3_RING, B_HEX, B_HEX2, B_PRISM_PYR, B_TRI2, B_TET3_FAN = range(12)
+BASE_COUNTS = {B_EMPTY: (0,0,0,0), B_LOWDIM: (5,5,1,0), B_TET: (4,6,4,1), B_TET2_FACE: (5,9,7,2), B_TET2_EDGE: (6,11,8,2), B_TET2_VERTEX: (7,12,8,2),
+               B_TET3_RING: (5,9,9,3), B_HEX: (8,12,6,1), B_HEX2: (12,20,11,2), B_PRISM_PYR: (7,12,9,2), B_TRI2: (4,5,2,0), B_TET3_FAN: (6,12,10,3)}
+(OP_NONE, OP_DEL_V, OP_DEL_E, OP_DEL_F, OP_DEL_C, OP_ADD_V, OP_ADD_E, OP_ADD_E_DUP, OP_ADD_F, OP_ADD_C, OP_SWAP_V, OP_SWAP_E, OP_SWAP_F, OP_SWAP_C,
+ OP_GC, OP_CLEAR, OP_BU_TOGGLE, OP_SET_E, OP_SET_F, OP_SET_C, OP_ADD_NV) = range(21)
+CASES_PER_QUERY = 8
+
+def op_count(base, op):
+    nv, ne, nf, nc = BASE_COUNTS[base]
+    return {OP_DEL_V: nv, OP_DEL_E: ne, OP_DEL_F: nf, OP_DEL_C: nc, OP_ADD_V: 1, OP_ADD_NV: 1, OP_GC: 1, OP_CLEAR: 1,
+            OP_ADD_E: nv*nv, OP_ADD_E_DUP: nv*nv, OP_SWAP_V: nv*nv, OP_SWAP_E: ne*ne, OP_SWAP_F: nf*nf, OP_SWAP_C: nc*nc, OP_BU_TOGGLE: 14}.get(op, 0)
+
+def op_shards(bases, modes, ops, per=CASES_PER_QUERY):
+    out = []
+    for b in bases:
+        for md in modes:
+            for op in ops:
+                n = op_count(b, op)
+                for ch in range((n + per - 1) // per):
+                    out.append({0: b, 1: md, 2: op, 3: ch})
+    return out
+
+
+# per-property job lists live in spec_<id>.py files (exec'd here so they share the helpers above)
+import glob as _glob, os as _os
+for _f in sorted(_glob.glob(_os.path.join(_os.path.dirname(_os.path.abspath(__file__)), "spec_C*.py"))):
+    exec(compile(open(_f).read(), _f, "exec"), globals())
